@@ -86,8 +86,9 @@ Section ModIntegral.
   Definition mi_reduce (y : Z) : Z :=
     if sg St then let x := Z.rem y (cast St p) in if x <? 0 then cast St (x + p) else x
     else Z.rem y p.
-  (* A: unsigned Source wider than Storage_t:   x = Caster<Element>(y % Source(_p)) *)
-  Definition mi_init_uwide (T : ity) (y : Z) : Z := cast St (Z.rem y (cast T p)).
+  (* A (repaired, fix-5): unsigned Source at least as wide as Storage_t:   x = Caster<Element>(y % _p)
+     (both operands are unsigned or promoted to int: the remainder is the mathematical one) *)
+  Definition mi_init_uwide (T : ity) (y : Z) : Z := cast St (Z.rem y p).
   (* B: signed Source wider than Storage_t (repaired, fix-2):
         const Source r = y % Source(_p);  x = Caster<Element>(r < 0 ? -r : r);  return (r < 0 ? negin(x) : x) *)
   Definition mi_init_swide (T : ity) (y : Z) : Z :=
@@ -116,7 +117,7 @@ Section ModIntegral.
     match s with
     | SInteger => Some (mi_init_Integer y)
     | SI T =>
-        if negb (sg T) && (bits St <? bits T) then Some (mi_init_uwide T y)
+        if negb (sg T) && (bits St <=? bits T) then Some (mi_init_uwide T y)
         else if sg T && (bits St <? bits T) then Some (mi_init_swide T y)
         else if sg St then Some (mi_init_gen_s_int y) else Some (mi_init_gen_u_int T y)
     | SF prec =>
@@ -179,12 +180,12 @@ Section Balanced.
           if bits T =? 64 then
             if sg T then Some (normalise (Z.rem y p))            (* int64_t:  y % int64_t(_up); NORMALISE *)
             else Some (normalise_hi (Z.rem y p))                 (* uint64_t: y % uint64_t(_up); NORMALISE_HI *)
-          else Some (normalise (Z.rem (rnd prec y) p))           (* generic: r = Caster<Element>(a); reduce(r) *)
+          else Some (normalise (Z.rem (cast i64 y) p))           (* generic (repaired, fix-6): init(r, Caster<int64_t>(a)) *)
         else
           if 32 <=? bits T then
             if sg T then Some (normalise (Z.rem y p)) else Some (normalise_hi (Z.rem y p))
-          else Some (normalise (Z.rem (rnd prec y) p))
-    | SLL _ => Some (normalise (Z.rem (rnd prec y) p))           (* generic template *)
+          else Some (normalise (Z.rem (cast i64 y) p))
+    | SLL _ => Some (normalise (Z.rem (cast i64 y) p))           (* generic template *)
     | SRU _ => None
     end.
   (* integral element (bits = 32 / 64) *)
@@ -197,8 +198,11 @@ Section Balanced.
         if (b =? 32) && (bits T =? 64) then
           if sg T then Some (normalise (cast E (Z.rem y p)))            (* int64_t overload *)
           else Some (normalise_hi (cast E (Z.rem y p)))                 (* uint64_t overload *)
-        else Some (normalise (Z.rem (cast E y) p))                      (* generic: r = Caster<Element>(a); reduce(r) *)
-    | SLL _ => Some (normalise (Z.rem (cast E y) p))                    (* generic template *)
+        else if b =? 32 then Some (normalise (cast E (Z.rem (cast i64 y) p)))   (* generic (repaired, fix-6): init(r, Caster<int64_t>(a)) *)
+        else Some (normalise (Z.rem (cast E y) p))                      (* int64_t element, generic: r = Caster<Element>(a); reduce(r) *)
+    | SLL _ =>
+        if b =? 32 then Some (normalise (cast E (Z.rem (cast i64 y) p)))
+        else Some (normalise (Z.rem (cast E y) p))
     | SRU _ => None
     end.
 End Balanced.
@@ -229,8 +233,8 @@ Section Mont32.
     | SF prec =>
         if prec =? 53 then           (* r = static_cast<Element>(fmod(|a|, double(_p)));  if (a < 0) negin(r) *)
           let r := Z.rem (Z.abs a) p in Some (mg_to (if a <? 0 then mg_negin r else r))
-        else                         (* generic template: Caster<Element>(r, a < 0 ? -a : a) %= _p *)
-          obind (f2i u32 (Z.abs a)) (fun r0 => let r := r0 mod p in Some (mg_to (if a <? 0 then mg_negin r else r)))
+        else                         (* generic template (repaired, fix-6): init(r, Caster<int64_t>(a)) *)
+          obind (f2i i64 a) (fun a => let r := Z.abs (Z.rem a p) in Some (mg_to (if a <? 0 then mg_negin r else r)))
     | SInteger =>                    (* r = static_cast<Element>(((a < 0) ? -a : a) % _p) *)
         let r := Z.abs a mod p in Some (mg_to (if a <? 0 then mg_negin r else r))
     | SI T =>
@@ -238,10 +242,10 @@ Section Mont32.
           if sg T then               (* repaired (fix-2):  r = static_cast<Element>(std::abs(a % int64_t(_p))) *)
             let r := Z.abs (Z.rem a p) in Some (mg_to (if a <? 0 then mg_negin r else r))
           else Some (mg_to (a mod p))
-        else                         (* generic template *)
-          let r := (cast u32 (cabs T a)) mod p in Some (mg_to (if a <? 0 then mg_negin r else r))
-    | SLL sgn =>                     (* generic template: the value is truncated to uint32_t BEFORE it is reduced *)
-        let r := (cast u32 (cabs (Ity 64 sgn) a)) mod p in Some (mg_to (if a <? 0 then mg_negin r else r))
+        else                         (* generic template (repaired, fix-6): init(r, Caster<int64_t>(a)) *)
+          let a := cast i64 a in let r := Z.abs (Z.rem a p) in Some (mg_to (if a <? 0 then mg_negin r else r))
+    | SLL sgn =>                     (* generic template: long long is converted to int64_t, unsigned long long wraps *)
+        let a := cast i64 a in let r := Z.abs (Z.rem a p) in Some (mg_to (if a <? 0 then mg_negin r else r))
     | SRU _ => None
     end.
   (* convert:  Element c;  r = Caster<T>(redc(c, a)) *)
@@ -264,7 +268,7 @@ Section ModRuint.
     let fin (m : Z) := let r := m mod p in Some (if a <? 0 then ru_negin r else r) in
     match s with
     | SI T => fin (ru_wrap (wrapu 64 (cabs T a)))          (* native integers are sign-extended to one limb *)
-    | SInteger => fin (ru_wrap (Z.abs a))                  (* the low 2^K bits of |a| *)
+    | SInteger => fin (ru_wrap (Z.abs a mod p))            (* repaired (fix-7): |a| is reduced modulo p as an Integer first *)
     | SRU K' => fin (ru_wrap a)
     | SF _ => obind (f2i u64 (Z.abs a)) (fun m => fin (ru_wrap m))
     | SLL _ => None
